@@ -52,7 +52,7 @@ def run(ctx):
 
     if ctx.replay is not None:
         syn = [ctx.replay] if ctx.replay.get("synthetic") else []
-        cfgs = [] if ctx.replay.get("synthetic") else [ctx.replay]
+        cfgs = [] if (ctx.replay.get("synthetic") or "singleton_scenario" in ctx.replay) else [ctx.replay]
     else:
         syn = [c for c in ctx.corpus if c.get("synthetic")]
         for _ in range(120 if ctx.quick() else 1500):
@@ -140,6 +140,45 @@ def run(ctx):
                                       {"equal_mean_scenario": rep}, {"site": "stats-values", "scenario": "equal-mean"})
             ctx.count("equal_mean_scenarios")
             ctx.case(("equal-mean", rep), nontrivial=True)
+
+    # ---------------- (a3) the whole statistics phase on states with a single-window cluster at every index:
+    # the estimator of one cluster must not depend on the sizes of the clusters before it
+    if ctx.replay is None or ctx.replay.get("singleton_scenario") is not None:
+        from fast_ticc.containers import arguments
+        reps = [ctx.replay["singleton_scenario"]] if ctx.replay is not None else list(range(8 if ctx.quick() else 80))
+        for rep in reps:
+            r = pyrandom.Random(ctx.seed * 131 + rep)
+            K = r.choice([2, 3, 4])
+            d = r.choice([1, 2, 3])
+            sizes = [r.randint(3, 9) for _ in range(K)]
+            for k in r.sample(range(K), r.randint(1, K - 1)):
+                sizes[k] = 1
+            lab = [k for k in range(K) for _ in range(sizes[k])]
+            r.shuffle(lab)
+            data = np.array([[float(r.randint(-64, 64)) for _ in range(d)] for _ in lab])
+            biased = (rep % 3 == 2)
+            args = arguments.UserArguments(sparsity_weight=0.1, iteration_limit=3, label_switching_cost=1.0, min_cluster_size=1,
+                                           min_meaningful_covariance=0, num_clusters=K, num_processors=1, window_size=1,
+                                           biased_covariance=biased)
+            st = model_state.ModelState.empty_model(args, data)
+            st.point_labels = list(lab)
+            with warnings.catch_warnings():
+                warnings.simplefilter("ignore")
+                out = cm.update_all_cluster_statistics(st, data)
+            for k in range(K):
+                members = [i for i, x in enumerate(lab) if x == k]
+                imean, icov = indep_stats(data[members], biased)
+                cl = out.clusters[k]
+                ok = cl.member_points == members and close_arr(cl.stacked_data_mean, imean)
+                if np.all(np.isfinite(icov)):
+                    ok = ok and close_arr(np.atleast_2d(cl.empirical_covariance), icov)
+                if not ok:
+                    ctx.violation("impl-violation",
+                                  f"cluster {k} (sizes {sizes}): mean/covariance are not those of exactly its windows with divisor "
+                                  f"{'n' if biased else 'n-1'}", {"singleton_scenario": rep, "sizes": sizes, "biased": biased},
+                                  {"site": "stats-values", "scenario": "singleton-neighbour"})
+            ctx.count("singleton_neighbour_scenarios")
+            ctx.case(("singleton", rep, tuple(sizes), biased), nontrivial=True)
 
     # ---------------- (b) traced runs
     for cfg in cfgs:
